@@ -291,6 +291,27 @@ where
     Ok(())
 }
 
+/// Entry point to the private COB cache update that runs after a fetch, for verification harnesses.
+#[cfg(feature = "verif-hooks")]
+pub mod verif {
+    use super::*;
+
+    /// See [`super::cache_cobs`]. The error is rendered, since its type is private.
+    pub fn cache_cobs<S, C>(
+        rid: &RepoId,
+        refs: &[RefUpdate],
+        storage: &S,
+        cache: &mut C,
+    ) -> Result<(), String>
+    where
+        S: ReadRepository + cob::Store<Namespace = NodeId>,
+        C: cob::cache::Update<cob::issue::Issue> + cob::cache::Update<cob::patch::Patch>,
+        C: cob::cache::Remove<cob::issue::Issue> + cob::cache::Remove<cob::patch::Patch>,
+    {
+        super::cache_cobs(rid, refs, storage, cache).map_err(|e| e.to_string())
+    }
+}
+
 /// Write new `RefUpdate`s that are related a `Patch` or an `Issue`
 /// COB to the COB cache.
 fn cache_cobs<S, C>(
